@@ -254,6 +254,13 @@ enum SchedulerAction<T> {
 
 impl<T: Send> SchedulerFuture<T> {
     ///
+    /// The queue that will evaluate the result of this future
+    ///
+    pub (super) fn queue(&self) -> &Arc<JobQueue> {
+        &self.queue
+    }
+
+    ///
     /// Creates a new scheduler future and the result needed to signal it
     ///
     pub (super) fn new(queue: &Arc<JobQueue>, core: Arc<SchedulerCore>) -> (SchedulerFuture<T>, SchedulerFutureSignaller<T>) {
